@@ -36,6 +36,12 @@ LEAVES = [
     L("int_max255", {"type": "integer", "maximum": 255}),
     L("int_range", {"type": "integer", "minimum": 0, "maximum": 255}),
     L("int_unkfmt", {"type": "integer", "format": "wibble"}),
+    # two-sided ranges whose maximum is some T::MAX while the minimum lies below T::MIN (and the mirror image)
+    L("int_m1_255", {"type": "integer", "minimum": -1, "maximum": 255}),
+    L("int_neg_32767", {"type": "integer", "minimum": -100000, "maximum": 32767}),
+    L("int_m128_300", {"type": "integer", "minimum": -128, "maximum": 300}),
+    L("int_0_u32max", {"type": "integer", "minimum": 0, "maximum": 4294967295}),
+    L("int_excl", {"type": "integer", "exclusiveMinimum": -2, "exclusiveMaximum": 256}),
     L("f32", {"type": "number", "format": "float"}),
     L("f64", {"type": "number", "format": "double"}),
     # string formats
@@ -479,14 +485,15 @@ UNION_OPERANDS = {
     "ref_obj": {"$ref": "#/definitions/XObj"}, "ref_str": {"$ref": "#/definitions/XLabel"},
     # operands that reach the other arms of schemas_mutually_exclusive: untyped enums, type lists, allOf / not wrappers
     "enum_int_untyped": {"enum": [1, 2]}, "str_or_null": {"type": ["string", "null"]}, "int_or_bool": {"type": ["integer", "boolean"]},
+    "int_or_null": {"type": ["integer", "null"]},
     "allof_str": {"allOf": [{"type": "string"}, {"maxLength": 3}]},
 }   # ({"const": "a"} is not an operand: typify documents that it ignores const, so every union with it is non-exclusive by construction)
-UNION_QUICK = ["null", "int", "str", "enum_ab", "vec_int", "arr13_str", "arr13_int", "tuple_is", "obj_p", "ref_str", "enum_int_untyped", "str_or_null"]
+UNION_QUICK = ["null", "int", "str", "enum_ab", "vec_int", "arr13_str", "arr13_int", "tuple_is", "obj_p", "ref_str", "enum_int_untyped", "str_or_null", "int_or_null", "num"]
 _UNION_DEFS = {"XObj": obj({"s": STR, "n": INT}, ["s"]), "XLabel": {"type": "string"}}
 _JTYPE = {"null": "null", "bool": "boolean", "int": "number", "num": "number", "str": "string", "str_max2": "string", "enum_ab": "string",
           "vec_int": "array", "vec_str": "array", "arr13_str": "array", "arr13_int": "array", "arr2_int": "array", "tuple_is": "array",
           "obj_p": "object", "obj_q_open": "object", "map_int": "object", "ref_obj": "object", "ref_str": "string",
-          "enum_int_untyped": "number", "str_or_null": "string|null", "int_or_bool": "number|boolean", "allof_str": "string"}
+          "enum_int_untyped": "number", "int_or_null": "number|null", "str_or_null": "string|null", "int_or_bool": "number|boolean", "allof_str": "string"}
 
 
 _MINI = [None, True, 0, 1, 2, 3, 1.5, "", "a", "abc", "0b9f1c1e-2d3a-4b5c-8d7e-6f5a4b3c2d1e", [], [1], [1, 2], [1, 2, 3, 4], ["a"], [1, "a"], ["a", "b"],
